@@ -321,7 +321,8 @@ def one_run(spec, device, fault, answer=None, line_fault=None):
                 v, c = runcheck.check(tm, opts, final_out, solution=sol_obj, complete=complete,
                                       n_probes=0 if device.probe_points is None else len(device.probe_points))
                 for x in v:
-                    x["detail"] = {"fault": None if fault is None else [fault.point, fault.stage, fault.step, fault.exc_kind], "combo": combo, **x["detail"]}
+                    x["detail"] = {"fault": None if fault is None else [fault.point, fault.stage, fault.step, fault.exc_kind], "combo": combo,
+                                   "line_fault": None if line_fault is None else line_fault.describe(), **x["detail"]}
                 V.extend(v)
     shutil.rmtree(work, ignore_errors=True)
     return V, C
@@ -335,10 +336,40 @@ class LineFault:
     def __init__(self, codes, k, kind):
         self.codes, self.k, self.kind = codes, k, kind
         self.count = 0
+        self.prev = None
+        self.skipped_not_interruptible = 0
+        self.call_lines = self._call_lines(codes)
         self.fired = False
         self.where = None
         self.stage_when_fired = None
         self.exc = None
+
+    @staticmethod
+    def _call_lines(codes):
+        """Lines (per file) of statements after which CPython can deliver an asynchronous exception: the
+        interpreter polls for pending signals after calls and on loop back-edges, not between plain
+        assignments. A failpoint at the start of statement L models an interrupt delivered at the end of the
+        previously executed statement, so it is armed only when that statement contains a call / loop / with."""
+        import ast
+        import inspect
+
+        out = set()
+        for c in codes:
+            try:
+                src, first = inspect.getsourcelines(c)
+            except OSError:
+                continue
+            import textwrap
+
+            tree = ast.parse(textwrap.dedent("".join(src)))
+            for node in ast.walk(tree):
+                if isinstance(node, ast.stmt):
+                    own = [n for n in ast.walk(node) if isinstance(n, (ast.Call, ast.Await))] if not isinstance(
+                        node, (ast.For, ast.While, ast.With, ast.Try, ast.If, ast.FunctionDef)) else [1]
+                    if own:
+                        for ln in range(node.lineno, (node.end_lineno or node.lineno) + 1) if not isinstance(node, (ast.For, ast.While, ast.With, ast.Try, ast.If, ast.FunctionDef)) else [node.lineno]:
+                            out.add((c.co_filename, first + ln - 1))
+        return out
 
     def describe(self):
         return {"k": self.k, "kind": self.kind, "where": self.where}
@@ -391,7 +422,13 @@ class LineFault:
         if self.fired:
             return
         self.count += 1
+        prev, self.prev = self.prev, (code.co_filename, line)
         if self.k is not None and self.count == self.k:
+            if prev is not None and prev not in self.call_lines:
+                # the previously executed statement cannot deliver an asynchronous exception at its end
+                self.skipped_not_interruptible = 1
+                self.k = None
+                return
             self.fired = True
             self.where = f"{code.co_name}:{line}"
             if self.kind == "kbd":
